@@ -34,7 +34,7 @@ pub static DEF: CheckDef = CheckDef {
     case,
     render,
     crashy: false,
-    floors: &[(">=3-pending-at-stop", 0.30), ("fault:receive", 0.08), ("fault:send", 0.06), ("fault:flush", 0.06), ("probe:values>=5", 0.12), ("cause:shutdown-request", 0.04), ("cause:last-handle-dropped", 0.04), ("cause:broker-shutdown", 0.04), ("cause:broker-shutdown-connection", 0.04), ("cause:shutdown-request+broker-shutdown", 0.03)],
+    floors: &[(">=3-pending-at-stop", 0.30), ("fault:receive", 0.08), ("fault:send", 0.06), ("fault:flush", 0.06), ("probe:values>=5", 0.12), ("cause:shutdown-request", 0.04), ("cause:last-handle-dropped", 0.04), ("cause:broker-shutdown", 0.04), ("cause:broker-shutdown-connection", 0.04), ("cause:shutdown-request+broker-shutdown", 0.03), ("victim-transport:bounded", 0.2), ("victim-transport:bounded<=2", 0.08), ("crossing-shutdowns-under-backpressure", 0.008)],
     extra: Some(extra),
     extra_coverage: Some(extra_coverage),
 };
@@ -48,9 +48,9 @@ fn plan(t: Tier) -> Vec<ClassPlan> {
         Tier::Thorough => 20,
     };
     vec![
-        ClassPlan { class: "fault-random", cases: 8_000 * k, min_len: 12, max_len: 16 },
-        ClassPlan { class: "clean", cases: 10_000 * k, min_len: 12, max_len: 16 },
-        ClassPlan { class: "clean-late-abort", cases: 800 * k, min_len: 12, max_len: 16 },
+        ClassPlan { class: "fault-random", cases: 8_000 * k, min_len: 12, max_len: 18 },
+        ClassPlan { class: "clean", cases: 10_000 * k, min_len: 12, max_len: 18 },
+        ClassPlan { class: "clean-late-abort", cases: 800 * k, min_len: 12, max_len: 18 },
     ]
 }
 
@@ -246,6 +246,23 @@ pub struct Case15 {
     pub drop_replies_after_request: bool,
     /// clean cause applied after the program has run to quiescence
     pub at_quiescence: bool,
+    /// generated classes: transports of the victim / of the other clients replaced by bounded
+    /// ones of this FIFO size (None = the scenario's own choice)
+    pub victim_fifo: Option<usize>,
+    pub peer_fifo: Option<usize>,
+}
+
+impl Case15 {
+    /// The scenario with this case's transport choice applied.
+    fn scenario(&self) -> Scenario {
+        let mut sc = scenario(self.scenario);
+        for (i, cl) in sc.clients.iter_mut().enumerate() {
+            if let Some(n) = if i == 0 { self.victim_fifo } else { self.peer_fifo } {
+                cl.tkind = TKind::Bounded(n);
+            }
+        }
+        sc
+    }
 }
 
 fn decode(class: &str, tape: &[u8]) -> Case15 {
@@ -279,11 +296,16 @@ fn decode(class: &str, tape: &[u8]) -> Case15 {
             true,
         ),
     };
+    // back-pressure on the victim's (and the peers') transport: a zero byte keeps the scenario's own
+    // transports; the exhaustive sweep's tapes end before these bytes
+    let fifo = |b: u8| if b < 96 { None } else { Some([1usize, 1, 2, 2, 3, 4, 8, 16][(b as usize - 96) % 8]) };
+    let victim_fifo = fifo(t.u8());
+    let peer_fifo = fifo(t.u8());
     let late_abort = !crate::c06::exclude_f5();
     let drop_replies_after_request = class == "clean-late-abort" && late_abort;
     // only these scenarios leave pending replies with the victim's application
     let scenario = if class == "clean-late-abort" { [1, 11][scenario % 2] } else { scenario };
-    Case15 { scenario, cause, point, relative, sched_seed, policy, det_seed, late_abort, drop_replies_after_request, at_quiescence: false }
+    Case15 { scenario, cause, point, relative, sched_seed, policy, det_seed, late_abort, drop_replies_after_request, at_quiescence: false, victim_fifo, peer_fifo }
 }
 
 pub fn exclude_f7() -> bool {
@@ -306,7 +328,7 @@ fn sweep_tape(scenario: usize, sel: u8, k: u32, sched_seed: u32, policy: u8, det
 
 fn render(class: &str, tape: &[u8]) -> String {
     let c = decode(class, tape);
-    let sc = scenario(c.scenario);
+    let sc = c.scenario();
     let mut s = format!(
         "scenario {} '{}' cause={:?} point={}{} sched_seed={} policy={:?} det_seed={}\n",
         c.scenario,
@@ -386,7 +408,7 @@ enum Done {
 }
 
 pub fn measure(scenario: usize, sched_seed: u64, policy: u8, det_seed: u64) -> Option<Measure> {
-    let c = Case15 { scenario, cause: Cause::None, point: 0, relative: false, sched_seed, policy, det_seed, late_abort: false, drop_replies_after_request: false, at_quiescence: false };
+    let c = Case15 { scenario, cause: Cause::None, point: 0, relative: false, sched_seed, policy, det_seed, late_abort: false, drop_replies_after_request: false, at_quiescence: false, victim_fifo: None, peer_fifo: None };
     let r = vcommon::with_det_seed(det_seed, 1 << 21, move || match execute(&c, Cause::None, 0) {
         Ok(Done::Measured(m)) => Some(m),
         _ => None,
@@ -395,7 +417,7 @@ pub fn measure(scenario: usize, sched_seed: u64, policy: u8, det_seed: u64) -> O
 }
 
 fn execute(c: &Case15, cause: Cause, point: u32) -> Result<Done, Outcome> {
-    let sc = scenario(c.scenario);
+    let sc = c.scenario();
     let allow = Allow { late_abort: c.late_abort, ..Allow::from_env() };
     let mut rig = Rig::connect(c.sched_seed, c.policy, &sc.clients, allow)?;
     let ctl = rig.net.clients[0].ctl.clone();
@@ -660,7 +682,19 @@ fn execute(c: &Case15, cause: Cause, point: u32) -> Result<Done, Outcome> {
         }
     }
     classes.push(SCENARIO_LABELS[c.scenario]);
-    let key = format!("{}|{:?}|{}|{}|{}|{}", c.scenario, cause, point, c.sched_seed, c.policy % 8, c.det_seed);
+    if let Some(n) = c.victim_fifo {
+        classes.push("victim-transport:bounded");
+        if n <= 2 {
+            classes.push("victim-transport:bounded<=2");
+            if matches!(cause, Cause::ShutdownRequestAndBrokerShutdown) {
+                classes.push("crossing-shutdowns-under-backpressure");
+            }
+        }
+    }
+    if c.peer_fifo.is_some() {
+        classes.push("peer-transport:bounded");
+    }
+    let key = format!("{}|{:?}|{}|{}|{}|{}|{:?}|{:?}", c.scenario, cause, point, c.sched_seed, c.policy % 8, c.det_seed, c.victim_fifo, c.peer_fifo);
     Ok(Done::Outcome(Outcome::Pass(PassInfo { nontrivial: pending >= 3, fp: fingerprint(key.as_bytes()), classes })))
 }
 
